@@ -8,6 +8,29 @@ from . import findings
 from .common import EVIDENCE, REPLAYS, Timer, seed, log
 
 
+_INT_KEYS = ('evaluations', 'distinct_nontrivial', 'states', 'transitions', 'traces_validated_against_impl', 'obligations',
+             'discharged', 'programs', 'disagreements_checked')
+
+
+def _check_evidence_shape(ev):
+    """The evidence schema types a few coverage keys; a check that reuses one of those names for something else would
+    write a file that does not validate (jsonschema is not importable in /venv, so the typed keys are checked here)."""
+    from .common import MachineryError
+    cov = ev['coverage']
+    for k in _INT_KEYS:
+        if k in cov and not (isinstance(cov[k], int) and not isinstance(cov[k], bool) and cov[k] >= 0):
+            raise MachineryError('evidence: coverage.%s must be a non-negative integer, got %r' % (k, cov[k]))
+    if not isinstance(cov.get('samples'), list) or not cov['samples']:
+        raise MachineryError('evidence: coverage.samples must be a non-empty list')
+    for k in ('rule', 'explanation', 'checker_cmd'):
+        if k in cov and not isinstance(cov[k], str):
+            raise MachineryError('evidence: coverage.%s must be a string' % k)
+    if 'exhaustive' in cov and not isinstance(cov['exhaustive'], bool):
+        raise MachineryError('evidence: coverage.exhaustive must be a boolean')
+    if 'trusted_base' in cov and not (isinstance(cov['trusted_base'], list) and all(isinstance(x, str) for x in cov['trusted_base'])):
+        raise MachineryError('evidence: coverage.trusted_base must be a list of strings')
+
+
 class Report:
     def __init__(self, pid, tier, level='model_checking'):
         self.pid = pid
@@ -87,6 +110,7 @@ class Report:
             cov['violation_keys'] = dict(sorted(vk.items(), key=lambda kv: -kv[1][0])[:200])
         ev = dict(property_id=self.pid, tier=self.tier, seed=seed(), level=self.level, coverage=cov,
                   assumptions=self.assumptions, wall_s=self.timer.s(), violations=len(self.violations))
+        _check_evidence_shape(ev)
         with open(os.path.join(EVIDENCE, self.pid + '.json'), 'w') as f:
             json.dump(ev, f, indent=1, default=str)
         for k, ent in sorted(self.known_hit.items()):
